@@ -42,7 +42,7 @@ class C19:
             "CPython (2.7 / 3.6,3.7 / 3.8,3.9 / 3.10) decodes the frozen bytes attached to a native code object to the "
             "same mapping; non-trivial = a gap needing continuation entries (offset gap >= 255 or |line delta| >= 127) "
             "or a decreasing line; distinct = (type, first line, mapping)")
-    assumptions = ["mappings start at offset 0 (Code310: or later, the code before has no line) and consecutive entries have different lines (what compilers emit); "
+    assumptions = ["mappings start at offset 0 (Code310: or later, the code before has no line); an entry repeating the previous line is expected to be merged; consecutive entries have different lines (what compilers emit); "
                    "equal consecutive lines are merged by every decoder and are not generated",
                    "Code3 covers 3.0-3.7 (unsigned before 3.6): only non-decreasing lines are required there"]
     budgets = {"quick": {"shards": 8, "examples": 2500, "seconds": 60},
@@ -66,7 +66,8 @@ class C19:
                 gap = draw(st.one_of(st.sampled_from(GAPS), st.integers(1, 40)))
                 gap = max(unit, gap - gap % unit) if unit == 2 else gap
                 off += gap
-                mag = draw(st.one_of(st.sampled_from([1, 2, 126, 127, 128, 129, 254, 255, 256, 257, 300, 600]), st.integers(1, 20)))
+                # (0: the same line again - every decoder merges such an entry into its predecessor)
+                mag = draw(st.one_of(st.sampled_from([0, 1, 2, 126, 127, 128, 129, 254, 255, 256, 257, 300, 600]), st.integers(0, 20)))
                 sign = -1 if (neg_ok and draw(st.integers(0, 3)) == 0) else 1
                 if line + sign * mag < 1:
                     sign = 1
@@ -88,7 +89,7 @@ class C19:
             return res
         offs = [p[0] for p in pairs]
         lines = [p[1] for p in pairs]
-        if any(b <= a for a, b in zip(offs, offs[1:])) or any(a == b for a, b in zip(lines, lines[1:])) or \
+        if any(b <= a for a, b in zip(offs, offs[1:])) or \
                 min(lines) < 1 or case["codelen"] <= offs[-1] or lines[0] < case["first"]:
             res.reject = "malformed-case"
             return res
@@ -99,7 +100,11 @@ class C19:
             return res
         x = rw.xd()
         table = dict((o, l) for o, l in pairs) if case["as"] == "dict" else [tuple(p) for p in pairs]
-        want = [[o, l] for o, l in pairs]
+        # an entry repeating its predecessor's line starts no new line: decoders report the merged mapping
+        want = []
+        for o, l in pairs:
+            if not want or want[-1][1] != l:
+                want.append([o, l])
         sig = "C19|%s" % typ
         big = any(b - a >= 255 for a, b in zip(offs, offs[1:])) or any(abs(b - a) >= 127 for a, b in zip(lines, lines[1:])) \
             or lines[0] - case["first"] >= 127
@@ -107,7 +112,7 @@ class C19:
         res.key = [typ, case["first"], pairs, case["codelen"]]
         if offs[0] >= 255:
             big = res.nontrivial = True
-        res.classes = ["type:" + typ, "given-as:" + case["as"]] + (["no-line-prefix"] if offs[0] else []) + (["continuation-entries"] if big else []) + (
+        res.classes = ["type:" + typ, "given-as:" + case["as"]] + (["repeated-line"] if len(want) != len(pairs) else []) + (["no-line-prefix"] if offs[0] else []) + (["continuation-entries"] if big else []) + (
             ["decreasing-line"] if decreasing else [])
         res.sample = {"type": typ, "first_line": case["first"], "mapping": pairs[:6], "given_as": case["as"]}
         try:
